@@ -950,6 +950,11 @@ def c17(out, rec=None):
     spread = math.sqrt(max(float(np.mean((x - x.mean(axis=0)) ** 2)), 1e-300))
     baseline = float(np.max(np.abs(x.mean(axis=0))))
     rtol = 1e-10 + 256 * EPS * (1.0 + baseline / spread)
+    # the same rule for the within-cluster sum: its terms are residuals about the cluster centroid
+    lab = np.asarray(labels)
+    wres = [x[lab == j] - x[lab == j].mean(axis=0) for j in range(k) if np.any(lab == j)]
+    wspread = math.sqrt(max(float(np.mean(np.concatenate(wres) ** 2)), 1e-300))
+    rtol += 256 * EPS * float(np.max(np.abs(x))) / wspread
 
     def near(a, b):
         if not math.isfinite(a) or not math.isfinite(b):
